@@ -206,6 +206,39 @@ def leidenFit (argsort : List Int → List Nat) (kernel : Nat → List Nat → L
     let f ← postProcess argsort m index sortClusters shuffle bipartite nRow
     pure (some (f, count))
 
+/-! ### input routing: `check_format`, `get_adjacency` -/
+
+/-- `check_format` followed by `get_adjacency(input_matrix, force_bipartite=…)`: a matrix without stored entry is
+    refused (ValueError); the graph is bipartite iff forced or not square; returns the flag and the number of nodes
+    of the adjacency matrix the algorithm runs on (`n_row + n_col` for a bipartite graph). -/
+def routeInput (nRow nCol nnz : Nat) (forceBipartite : Bool) : Except PyErr (Bool × Nat) :=
+  if nnz == 0 then .error .valueError
+  else
+    let bip := forceBipartite || nRow != nCol
+    .ok (bip, if bip then nRow + nCol else nRow)
+
+/-- `Louvain.fit(input_matrix, force_bipartite)` from the shape of the input: routing, the check of the
+    `modularity` option in `_pre_processing`, then the loop and the post-processing.  (The numerics of
+    `_pre_processing` — node weights, normalisation — are not modelled; they need a positive total weight.) -/
+def louvainEstimator (argsort : List Int → List Nat) (kernel : Nat → Nat → List Int × Bool) (nAgg : Int)
+    (fuel nRow nCol nnz : Nat) (forceBipartite modularityKnown : Bool) (index : List Nat)
+    (sortClusters shuffle : Bool) : Except PyErr (Option (Fitted × Nat)) :=
+  match routeInput nRow nCol nnz forceBipartite with
+  | .error e => .error e
+  | .ok (bip, n) =>
+    if !modularityKnown then .error .valueError
+    else louvainFit argsort kernel nAgg fuel n index sortClusters shuffle bip nRow
+
+def leidenEstimator (argsort : List Int → List Nat) (kernel : Nat → List Nat → List Int × Bool)
+    (refine : Nat → List Nat → List Int) (nAgg : Int)
+    (fuel nRow nCol nnz : Nat) (forceBipartite modularityKnown : Bool) (index : List Nat)
+    (sortClusters shuffle : Bool) : Except PyErr (Option (Fitted × Nat)) :=
+  match routeInput nRow nCol nnz forceBipartite with
+  | .error e => .error e
+  | .ok (bip, n) =>
+    if !modularityKnown then .error .valueError
+    else leidenFit argsort kernel refine nAgg fuel n index sortClusters shuffle bip nRow
+
 /-! ### `PropagationClustering.fit` after the sweeps -/
 
 /-- `_, labels_ = np.unique(labels_, return_inverse=True)`, the relabelling by size when `sort_clusters`
@@ -215,6 +248,14 @@ def propagationPost (argsort : List Int → List Nat) (raw : List Int) (sortClus
   let labels := inverse raw
   let labels := if sortClusters then reindexLabels argsort (labels.map Int.ofNat) else labels
   splitVars bipartite nRow labels
+
+/-- `PropagationClustering.fit(input_matrix)` from the shape of the input; `sweeps n` stands for the labels left by
+    `Propagation.fit` on the `n` nodes of the adjacency -/
+def propagationEstimator (argsort : List Int → List Nat) (sweeps : Nat → List Int) (nRow nCol nnz : Nat)
+    (sortClusters : Bool) : Except PyErr Fitted :=
+  match routeInput nRow nCol nnz false with
+  | .error e => .error e
+  | .ok (bip, n) => .ok (propagationPost argsort (sweeps n) sortClusters bip nRow)
 
 /-! ### `_secondary_outputs` (exact arithmetic) -/
 
